@@ -10,46 +10,46 @@ import (
 // Plan is the unit of execution and the replay file format: everything a run does is a pure
 // function of the plan and the code.
 type Plan struct {
-	Prop     string          `json:"prop"`
-	Seed     uint64          `json:"seed"`
-	Index    int             `json:"index"`
-	Tier     string          `json:"tier,omitempty"`
-	SchedSeed uint64         `json:"sched_seed"`
-	Policy   int             `json:"policy"`
-	Spec     *WorldSpec      `json:"spec,omitempty"`
-	Ops      []Op            `json:"ops,omitempty"`
-	Faults   []Fault         `json:"faults,omitempty"`
-	Extra    json.RawMessage `json:"extra,omitempty"`
-	Mode     string          `json:"mode,omitempty"`
+	Prop      string          `json:"prop"`
+	Seed      uint64          `json:"seed"`
+	Index     int             `json:"index"`
+	Tier      string          `json:"tier,omitempty"`
+	SchedSeed uint64          `json:"sched_seed"`
+	Policy    int             `json:"policy"`
+	Spec      *WorldSpec      `json:"spec,omitempty"`
+	Ops       []Op            `json:"ops,omitempty"`
+	Faults    []Fault         `json:"faults,omitempty"`
+	Extra     json.RawMessage `json:"extra,omitempty"`
+	Mode      string          `json:"mode,omitempty"`
 }
 
 // Op is one workload step. ID is stable under shrinking (it seeds the task's delay stream).
 type Op struct {
 	ID   int               `json:"id"`
 	Kind string            `json:"kind"`
-	B    int               `json:"b,omitempty"`    // browser / agent
+	B    int               `json:"b,omitempty"` // browser / agent
 	Host string            `json:"host,omitempty"`
 	Path string            `json:"path,omitempty"`
-	D    int               `json:"d,omitempty"`    // seconds (adv) or generic integer argument
-	F    int               `json:"f,omitempty"`    // filter index
-	S    string            `json:"s,omitempty"`    // generic string argument
+	D    int               `json:"d,omitempty"` // seconds (adv) or generic integer argument
+	F    int               `json:"f,omitempty"` // filter index
+	S    string            `json:"s,omitempty"` // generic string argument
 	Args map[string]string `json:"args,omitempty"`
-	Par  []Op              `json:"par,omitempty"`  // concurrent tasks
+	Par  []Op              `json:"par,omitempty"` // concurrent tasks
 }
 
 type Result struct {
-	Viol         []Violation    `json:"viol,omitempty"`
-	Faults       map[string]int `json:"faults,omitempty"`
-	Probes       map[string]int `json:"probes,omitempty"`
-	TraceHash    uint64         `json:"trace_hash"`
-	SchedHash    uint64         `json:"sched_hash"`
-	StateHash    uint64         `json:"state_hash"`
-	Nontrivial   bool           `json:"nontrivial"`
-	SimSecs      float64        `json:"sim_secs"`
-	Steps        int            `json:"steps"`
-	Log          []string       `json:"log,omitempty"`
-	Infra        string         `json:"infra,omitempty"` // harness/infrastructure problem: exit 2, never a violation
-	Summary      string         `json:"summary,omitempty"`
+	Viol       []Violation    `json:"viol,omitempty"`
+	Faults     map[string]int `json:"faults,omitempty"`
+	Probes     map[string]int `json:"probes,omitempty"`
+	TraceHash  uint64         `json:"trace_hash"`
+	SchedHash  uint64         `json:"sched_hash"`
+	StateHash  uint64         `json:"state_hash"`
+	Nontrivial bool           `json:"nontrivial"`
+	SimSecs    float64        `json:"sim_secs"`
+	Steps      int            `json:"steps"`
+	Log        []string       `json:"log,omitempty"`
+	Infra      string         `json:"infra,omitempty"` // harness/infrastructure problem: exit 2, never a violation
+	Summary    string         `json:"summary,omitempty"`
 	// PlanFaults, when set, are the faults of the failing sub-run (systematic sweep): the replay
 	// file is the plan with these faults.
 	PlanFaults []Fault `json:"plan_faults,omitempty"`
